@@ -289,7 +289,7 @@ const baseHeight = 100
 // genWorld: 3..8 outputs over 2 accounts x 2 assets x vote/no vote, two thirds
 // of them in one "main" class so that selections combine several outputs.
 // Some are immature (validHeight above the height), one may be a contract
-// output.  In overlap worlds some mature non-vote outputs may be confirmed and
+// output.  In overlap worlds some outputs (mature or immature) may be confirmed and
 // unconfirmed at the same time (same output id, identical attributes: the state
 // between the wallet attaching a block and processing the pool removal).  In
 // the other worlds every output is either a DB output or a pool output, never
@@ -330,7 +330,7 @@ func genWorld(rng *ev.Rand, overlap, huge bool) *world {
 		switch {
 		case i > 1 && rng.Chance(1, 12):
 			sp.contract, sp.acc, sp.canDB = true, -1, true
-		case overlap && sp.validHeight == 0 && sp.vote == 0 && (i == 0 || rng.Chance(2, 3)):
+		case overlap && (i == 0 || rng.Chance(2, 3)): // mature or immature, vote or not: it is one output wherever it is stored
 			sp.canDB, sp.canPool = true, true
 		case rng.Chance(3, 5):
 			sp.canDB = true
